@@ -184,6 +184,31 @@ CHECKS = {
         'URI is passed undecoded as twisted does; handlers never executed; '
         'stand-in certificate object.',
     ),
+    'C13': (
+        'shelve-rig', 'fault_enumeration',
+        'Hypothesis-generated words over acquire/advance-clock/release/'
+        'disconnect for up to 5 real comms.Worker connections on a harness '
+        'clock, invariants after every step + bounded drain; a disconnect '
+        'injected at every position of generated words for every client; '
+        'the real client functions comms.acquire/release over an in-process '
+        'socket',
+        'Real comms.Worker protocol objects per client on recording '
+        'transports; LoopingCall polls and callLater timers run on a '
+        'task.Clock the harness advances, so the harness owns the '
+        'interleaving. After every operation: at most one connection owns '
+        'the lock and at most one client has been told it holds; a client is '
+        'told only when the bit is set and its connection owns it; the bit '
+        'is never set without a live owner (covers holder and waiter death); '
+        'release answers True exactly to the holder and frees the bit; a '
+        'poll of a live waiter while the lock is free grants; final drain: '
+        'holders release or die in turn and every live waiter is granted '
+        'within one poll period per waiter. Part crash enumerates a drop of '
+        'every client after every prefix of generated words. Part client '
+        'runs comms.acquire()/release() themselves and checks they return '
+        'only with the lock / free it.',
+        'callbacks serialised on the reactor thread as in production; '
+        'liveness in bounded form only.',
+    ),
 }
 
 NOT_YET = 'check not built yet in this session (planned, see DESIGN.md section 4)'
